@@ -101,6 +101,7 @@ func (Prop) Run(t *core.Tape, o core.RunOpts) *core.Result {
 		calls = 1 + calls%6 // favour short runs
 	}
 	strategy := sched.Strategy(t.Choose(int(sched.NumStrategies)))
+	rareStall := false
 	entropy := 0
 	if t.Bool(1, 3) {
 		entropy = t.Choose(vrand.NumEntropy)
@@ -138,6 +139,13 @@ func (Prop) Run(t *core.Tape, o core.RunOpts) *core.Result {
 		strategy = sched.SRunToBlock
 		entropy = vrand.EUniform
 		res.Probes.Inc("marathon_run")
+		// half of the two-caller marathons run under the stalled-node fault: the first caller to
+		// reach a preemption point that is reached a few times per run at most is held there
+		// until the other one comes to the same point (windows that open once per N calls)
+		if n == 2 && t.Bool(1, 2) {
+			rareStall = true
+			res.Probes.Inc("marathon_stall_run")
+		}
 	}
 	budget := int64(n*calls)*1500 + int64(n*n*calls)*64 + 20000 // only there to end livelocks; the quadratic term is for designs that wake every waiter on every release
 	salt := t.Word()
@@ -162,7 +170,7 @@ func (Prop) Run(t *core.Tape, o core.RunOpts) *core.Result {
 	res.Extra.Inc(fmt.Sprintf("reported_gomaxprocs_%02d", procs))
 	sched.ClearPending()
 	resetPackages() // every run starts from the package's initial state
-	s := sched.New(t, sched.Config{Strategy: strategy, Clock: clock, MaxSteps: budget, Keep: o.KeepTrace})
+	s := sched.New(t, sched.Config{Strategy: strategy, Clock: clock, MaxSteps: budget, Keep: o.KeepTrace, RareStall: rareStall})
 	s.Salt = salt
 	s.Entropy = entropy
 	vrand.I2Enabled = ScanI2
@@ -364,7 +372,10 @@ func (Prop) Run(t *core.Tape, o core.RunOpts) *core.Result {
 	res.SimTimeNs = s.MonoNs // simulated monotonic time covered by this run
 	res.NonTrivial = s.Contended()
 	res.Class = res.TraceHash
-	res.Faults = s.Faults
+	res.Faults.Merge(s.Faults)
+	if rareStall {
+		res.Faults.Add("stalled_at_rare_site", 0) // listed even where no point of the tree is rare
+	}
 	res.Probes.Merge(s.Probes)
 	if s.Faults["preempt_in_rmw"] > 0 {
 		res.Probes.Inc("preempt_in_rmw_fault")
